@@ -4,7 +4,7 @@
 # Uses one scratch worktree of /repo HEAD under /tmp and removes it at the end; evidence and replays of these
 # runs go to a scratch directory (VERIF_SCRATCH_OUT), not to /verif.
 cd /verif || exit 2
-WT=/tmp/wt-seedreg
+WT=/tmp/wt-seedreg-$$   # one worktree per invocation: two runs at the same time must not share it
 git -C /repo worktree remove --force $WT 2>/dev/null
 git -C /repo worktree add -q --detach $WT HEAD || exit 2
 seeds="$@"
@@ -33,11 +33,11 @@ for s in $seeds; do
   if ! git -C $WT apply /verif/seeded/$s/patch.diff 2>/dev/null; then echo "$s: PATCH DOES NOT APPLY"; miss=$((miss+1)); continue; fi
   caught=no
   for id in $ids; do
-    out=$(VERIF_SCRATCH_OUT=/tmp/seedreg-out VERIF_REPO=$WT ./check $id quick 2>&1)
+    out=$(VERIF_SCRATCH_OUT=/tmp/seedreg-out-$$ VERIF_REPO=$WT ./check $id quick 2>&1)
     if echo "$out" | grep -q "^VIOLATION"; then caught="$id: $(echo "$out" | grep -A1 '^VIOLATION' | sed -n 2p | cut -c1-140)"; break; fi
   done
   if [ "$caught" = no ]; then echo "$s: NOT CAUGHT ($(echo "$out" | grep -E '^(OK|INCONCLUSIVE)' | head -1 | cut -c1-120))"; miss=$((miss+1)); else echo "$s: caught by $caught"; fi
 done
 git -C /repo worktree remove --force $WT
-rm -rf /tmp/seedreg-out
+rm -rf /tmp/seedreg-out-$$
 echo "not caught: $miss"
